@@ -280,6 +280,97 @@ impl Hist {
             "advance" => { let ns = t.u64(); self.w.advance(ns); "ok".into() }
             "fault" => { self.pending_fault = Some(t.u64()); "ok".into() }
             "snap" => self.snapshot(),
+            "q" => { let l = line.to_string(); crate::guarded(|| Ok(self.query(&l))).unwrap_or_else(|_| "err".to_string()) }
+            _ => "bad-op".into(),
+        }
+    }
+
+    fn coin_list(&self, cs: &[Coin]) -> String {
+        if cs.is_empty() { return "-".into(); }
+        let mut v: Vec<(String, u128)> = cs.iter().map(|c| (self.w.cd(&c.denom), c.amount.u128())).collect();
+        v.sort();
+        v.iter().map(|(d, a)| format!("{}:{}", d, a)).collect::<Vec<_>>().join(",")
+    }
+
+    fn parse_ops(&self, t: &mut Toks) -> Vec<pmm::SwapOperation> {
+        let n = t.u64() as usize;
+        (0..n).map(|_| {
+            let i = self.w.rd(t.s()); let o = self.w.rd(t.s()); let p = t.s().to_string();
+            pmm::SwapOperation::MantraSwap { token_in_denom: i, token_out_denom: o, pool_identifier: p }
+        }).collect()
+    }
+
+    /// `q <kind> <args…>`: the real query entry points (read-only)
+    ///   q sim <pool> <offerdenom> <amount> <askdenom>            => ok ret slip swapfee protfee burnfee extrafees
+    ///   q rev <pool> <askdenom> <amount> <offerdenom>            => ok offer slip swapfee protfee burnfee extrafees
+    ///   q simops <amount> <n> (<in> <out> <pool>)*n              => ok ret slips swapfees protfees burnfees extrafees
+    ///   q revops <amount> <n> (<in> <out> <pool>)*n              => ok offer slips …
+    ///   q decimals <pool> <denom>                                => ok n
+    ///   q pools <id|-> <startafter|-> <limit|->                  => ok id:totalshare,…
+    ///   q farms <id|lp|asset|-> <value|-> <startafter|-> <limit|->
+    ///   q positions <id|recv|-> <value|-> <open|-> <startafter|-> <limit|->
+    ///   q lpweight <who> <lp> <epoch>                            => ok weight
+    ///   q rewards <who> <until|->                                => ok coins
+    pub fn query(&self, line: &str) -> String {
+        let mut t = Toks::new(line);
+        t.s();
+        let kind = t.s().to_string();
+        let pm = self.w.a("pm");
+        let fm = self.w.a("fm");
+        let q = self.w.app.wrap();
+        match kind.as_str() {
+            "sim" => {
+                let pool = t.s().to_string(); let od = self.w.rd(t.s()); let amt = t.u128(); let ad = self.w.rd(t.s());
+                let r: Result<pmm::SimulationResponse, _> = q.query_wasm_smart(pm, &pmm::QueryMsg::Simulation { offer_asset: coin(amt, od), ask_asset_denom: ad, pool_identifier: pool });
+                match r { Ok(x) => format!("ok {} {} {} {} {} {}", x.return_amount, x.slippage_amount, x.swap_fee_amount, x.protocol_fee_amount, x.burn_fee_amount, x.extra_fees_amount), Err(_) => "err".into() }
+            }
+            "rev" => {
+                let pool = t.s().to_string(); let ad = self.w.rd(t.s()); let amt = t.u128(); let od = self.w.rd(t.s());
+                let r: Result<pmm::ReverseSimulationResponse, _> = q.query_wasm_smart(pm, &pmm::QueryMsg::ReverseSimulation { ask_asset: coin(amt, ad), offer_asset_denom: od, pool_identifier: pool });
+                match r { Ok(x) => format!("ok {} {} {} {} {} {}", x.offer_amount, x.slippage_amount, x.swap_fee_amount, x.protocol_fee_amount, x.burn_fee_amount, x.extra_fees_amount), Err(_) => "err".into() }
+            }
+            "simops" => {
+                let amt = t.u128(); let ops = self.parse_ops(&mut t);
+                let r: Result<pmm::SimulateSwapOperationsResponse, _> = q.query_wasm_smart(pm, &pmm::QueryMsg::SimulateSwapOperations { offer_amount: Uint128::new(amt), operations: ops });
+                match r { Ok(x) => format!("ok {} {} {} {} {} {}", x.return_amount, self.coin_list(&x.slippage_amounts), self.coin_list(&x.swap_fees), self.coin_list(&x.protocol_fees), self.coin_list(&x.burn_fees), self.coin_list(&x.extra_fees)), Err(_) => "err".into() }
+            }
+            "revops" => {
+                let amt = t.u128(); let ops = self.parse_ops(&mut t);
+                let r: Result<pmm::ReverseSimulateSwapOperationsResponse, _> = q.query_wasm_smart(pm, &pmm::QueryMsg::ReverseSimulateSwapOperations { ask_amount: Uint128::new(amt), operations: ops });
+                match r { Ok(x) => format!("ok {} {} {} {} {} {}", x.offer_amount, self.coin_list(&x.slippage_amounts), self.coin_list(&x.swap_fees), self.coin_list(&x.protocol_fees), self.coin_list(&x.burn_fees), self.coin_list(&x.extra_fees)), Err(_) => "err".into() }
+            }
+            "decimals" => {
+                let pool = t.s().to_string(); let d = self.w.rd(t.s());
+                let r: Result<pmm::AssetDecimalsResponse, _> = q.query_wasm_smart(pm, &pmm::QueryMsg::AssetDecimals { pool_identifier: pool, denom: d });
+                match r { Ok(x) => format!("ok {}", x.decimals), Err(_) => "err".into() }
+            }
+            "pools" => {
+                let id = opt_s(&mut t); let sa = opt_s(&mut t); let lim = t.opt_u128().map(|x| x as u32);
+                let r: Result<pmm::PoolsResponse, _> = q.query_wasm_smart(pm, &pmm::QueryMsg::Pools { pool_identifier: id, start_after: sa, limit: lim });
+                match r { Ok(x) => if x.pools.is_empty() { "ok -".into() } else { format!("ok {}", x.pools.iter().map(|p| format!("{}:{}", p.pool_info.pool_identifier, p.total_share.amount)).collect::<Vec<_>>().join(",")) }, Err(_) => "err".into() }
+            }
+            "farms" => {
+                let k = t.s().to_string(); let v = t.s().to_string(); let sa = opt_s(&mut t); let lim = t.opt_u128().map(|x| x as u32);
+                let by = match k.as_str() { "id" => Some(fmm::FarmsBy::Identifier(v)), "lp" => Some(fmm::FarmsBy::LpDenom(self.w.rd(&v))), "asset" => Some(fmm::FarmsBy::FarmAsset(self.w.rd(&v))), _ => None };
+                let r: Result<fmm::FarmsResponse, _> = q.query_wasm_smart(fm, &fmm::QueryMsg::Farms { filter_by: by, start_after: sa, limit: lim });
+                match r { Ok(x) => if x.farms.is_empty() { "ok -".into() } else { format!("ok {}", x.farms.iter().map(|f| f.identifier.clone()).collect::<Vec<_>>().join(",")) }, Err(_) => "err".into() }
+            }
+            "positions" => {
+                let k = t.s().to_string(); let v = t.s().to_string(); let o = opt_bool(&mut t); let sa = opt_s(&mut t); let lim = t.opt_u128().map(|x| x as u32);
+                let by = match k.as_str() { "id" => Some(fmm::PositionsBy::Identifier(v)), "recv" => Some(fmm::PositionsBy::Receiver(self.w.astr(&v))), _ => None };
+                let r: Result<fmm::PositionsResponse, _> = q.query_wasm_smart(fm, &fmm::QueryMsg::Positions { filter_by: by, open_state: o, start_after: sa, limit: lim });
+                match r { Ok(x) => if x.positions.is_empty() { "ok -".into() } else { format!("ok {}", x.positions.iter().map(|p| p.identifier.clone()).collect::<Vec<_>>().join(",")) }, Err(_) => "err".into() }
+            }
+            "lpweight" => {
+                let who = t.s().to_string(); let lp = self.w.rd(t.s()); let e = t.u64();
+                let r: Result<fmm::LpWeightResponse, _> = q.query_wasm_smart(fm, &fmm::QueryMsg::LpWeight { address: self.w.astr(&who), denom: lp, epoch_id: e });
+                match r { Ok(x) => format!("ok {}", x.lp_weight), Err(_) => "err".into() }
+            }
+            "rewards" => {
+                let who = t.s().to_string(); let u = opt_u64(&mut t);
+                let r: Result<fmm::RewardsResponse, _> = q.query_wasm_smart(fm, &fmm::QueryMsg::Rewards { address: self.w.astr(&who), until_epoch: u });
+                match r { Ok(fmm::RewardsResponse::RewardsResponse { total_rewards, .. }) => format!("ok {}", self.coin_list(&total_rewards)), Ok(_) => "ok other".into(), Err(_) => "err".into() }
+            }
             _ => "bad-op".into(),
         }
     }
@@ -508,9 +599,15 @@ impl Runner {
         o.line("snap", &s);
     }
     pub fn step(&mut self, line: &str, o: &mut Out) -> String {
+        if line.starts_with("q ") {
+            let res = self.h.exec_line(line);
+            o.line(line, &res);
+            return res;
+        }
         self.log.push(line.to_string());
         let before = self.h.last_obs.clone();
         self.ms.fault_active = self.h.pending_fault.is_some() && !line.starts_with("fault");
+        if line.starts_with("tx ") { crate::monitors::pre_tx_quotes(&self.h, &mut self.ms, line); }
         let res = self.h.exec_line(line);
         o.line(line, &res);
         if !line.starts_with("fault") {
